@@ -1000,6 +1000,8 @@ fn gen_c10(rng: &mut Rng, thorough: bool, out: &mut Cases) {
         }
         out.push(32, w);
     }
+    // the scan loop on arbitrary streams (well-formed, truncated, hostile lengths, random) under read schedules
+    crate::gen2::gen_scan(rng, if thorough { 20_000 } else { 1_500 }, out);
 }
 
 fn gen_c14(rng: &mut Rng, thorough: bool, out: &mut Cases) {
